@@ -181,9 +181,11 @@ func appendXForwardedFor(r *httpprot.Request)
   requires r != nil
   modifies allof("map<string,[]string>#dom"), allof("map<string,[]string>#card"), allof("map<string,[]string>#val#arr"), allof("map<string,[]string>#val#len"), allof("map<string,[]string>#val#cap"), allof("elem<string>")
 
+// (a running GlobalFilter's before / after pipelines, when loaded, are initialised pipelines)
 func (mi *muxInstance) getGlobalFilter() (gf *globalfilter.GlobalFilter)
   trusted
   pure
+  ensures gf != nil ==> globalfilter.wfLoaded(gf.beforePipeline.v) && globalfilter.wfLoaded(gf.afterPipeline.v)
 
 func (mi *muxInstance) serveHTTP(stdw http.ResponseWriter, stdr *http.Request)
   flag allocates
